@@ -7,6 +7,7 @@ from ..runner import Scn, verdict, sha, Vacuous
 from . import c05
 
 ID = 'C09'
+DECORATE = True
 LEVEL = 'model_checking'
 RULE = ('E1 enumeration of decks: materials {0,1,2,3} x density spellings (trailing zeros, e/E/d/D/omitted '
         'exponent marker, numerically different values) on level-0 layouts and on the C05 universe trees '
